@@ -81,7 +81,7 @@ def epi_vars(sercons):
     for a in atoms_of(sercons):
         if a['epi'] not in seen:
             seen.add(a['epi'])
-            out.append({'name': a['epiname'], 'ids': [a['epi']], 'gen': None, 'shape': []})
+            out.append({'name': a['epiname'] or ('_epi_%d_' % a['epi']), 'ids': [a['epi']], 'gen': None, 'shape': []})
     return out
 
 
